@@ -28,6 +28,16 @@ pub(super) fn run_write(invocation: ToolInvocation, config: &BuiltinToolConfig) 
         Err(err) => return ToolOutput::failure(vec![err]),
     };
 
+    // "" / "." resolve to the workspace root itself: there is no file to write, and the temporary
+    // file of an atomic write would be created next to the root, i.e. outside the workspace.
+    let names_a_file = path
+        .strip_prefix(&config.workspace_root)
+        .map(|rel| rel.components().next().is_some())
+        .unwrap_or(false);
+    if !names_a_file {
+        return ToolOutput::failure(vec!["path must name a file inside the workspace".to_string()]);
+    }
+
     let create = args.create.unwrap_or(true);
     let append = args.append.unwrap_or(false);
     let atomic = args.atomic.unwrap_or(true);
